@@ -258,7 +258,9 @@ def run(rep: Report, repo: Repo, tier: str) -> None:
     rep.check(obj_var is not None and gcall is not None, "C16-R6", where,
               f"{obj_var} = dict_to_settings({dict_var or '<validated dict>'})", "the settings object is not built from the validated dictionary")
     if gcall is not None:
-        rep.check(gcall.args and call_name(gcall.args[0]) == "config_template" if isinstance(gcall.args[0], ast.Call) else False,
+        from .fsrules import resolve_locals as _rl
+        _targ = _rl(gcall.args[0], main, skip=frozenset({cfg_var})) if gcall.args else None
+        rep.check(isinstance(_targ, ast.Call) and call_name(_targ) == "config_template",
                   "C16-R6", where, norm(gcall)[:70], "settings are read without the template: no type validation happens",
                   witness="recursive: 'yes please' in a -s file")
     for c in calls_in(main):
@@ -269,6 +271,12 @@ def run(rep: Report, repo: Repo, tier: str) -> None:
         if isinstance(st, ast.Assign) and norm(st.targets[0]) == f"{obj_var}.input.exclude_filters":
             v = norm(st.value)
             union_ok = "all_contents()" in v and f"{cfg_var}['input']['exclude_filters']" in v and obj_var in names and i > names[obj_var][0]
+        # ... or stored into the validated dictionary before the Settings object is built from it
+        if isinstance(st, ast.Assign) and dict_var and norm(st.targets[0]) in (f"{dict_var}['input']['exclude_filters']",
+                                                                                 f'{dict_var}["input"]["exclude_filters"]'):
+            v = norm(st.value)
+            union_ok = "all_contents()" in v and f"{cfg_var}['input']['exclude_filters']" in v and dict_var in names \
+                and names[dict_var][0] < i and (obj_var is None or i < names[obj_var][0])
     rep.check(union_ok, "C16-R4", where, f"{obj_var}.input.exclude_filters = list({cfg_var}['input']['exclude_filters'].all_contents())",
               "exclude patterns come from the highest-priority source only instead of the union of all sources",
               witness="-e a on the command line plus exclude_filters: [b] in the -s file")
@@ -421,16 +429,23 @@ def rule_output_dir_resolution(rep: Report, repo: Repo, rule: str) -> None:
             for s2 in st.body:
                 if isinstance(s2, ast.Assign) and isinstance(s2.value, ast.Constant) and s2.value.value is True:
                     flag_var = norm(s2.targets[0])
-        if isinstance(st, ast.Assign) and "['relative_to_config']" in norm(st.value) and ".get(" in norm(st.value):
+        if isinstance(st, ast.Assign) and "['relative_to_config']" in norm(st.value) and ".get(" in norm(st.value) \
+                and "config_template" not in norm(st.value):
             flag_var = norm(st.targets[0])
     passed = False
+    from .fsrules import resolve_locals
+    direct_flag = f"{cfg_var}['output']['relative_to_config'].get()"
     for c in calls_in(main):
-        if isinstance(c.func, ast.Attribute) and c.func.attr == "get" and norm(c.func.value) == cfg_var and c.args \
-                and isinstance(c.args[0], ast.Call) and c.args[0].args:
-            passed = norm(c.args[0].args[0]) == flag_var
-            extra = [k.arg for k in c.args[0].keywords] + [norm(a) for a in c.args[0].args[1:]]
-            if extra:
-                passed = False
+        if isinstance(c.func, ast.Attribute) and c.func.attr == "get" and norm(c.func.value) == cfg_var and c.args:
+            targ = resolve_locals(c.args[0], main, skip=frozenset({cfg_var}))          # the template may be held in a local first
+            if isinstance(targ, ast.Call) and targ.args and call_name(targ) == "config_template":
+                a0 = norm(targ.args[0])
+                passed = (flag_var is not None and a0 == flag_var) or a0 in (direct_flag, f"bool({direct_flag})")
+                extra = [k.arg for k in targ.keywords] + [norm(a) for a in targ.args[1:]]
+                if extra:
+                    passed = False
+                if passed and flag_var is None:
+                    flag_var = a0
     rep.check(flag_var is not None and passed, rule, where, f"config_template({flag_var})",
               "main does not pass exactly the relative_to_config flag to the template: the option has no effect")
     rep.floor(rule, 2, "relative_to_config facts")
